@@ -480,6 +480,7 @@ func Minimize(t *testing.T, sc func() Scenario, c *Case, class string, budget in
 		func(d *Case) bool { ch := d.Net.Abortive != 0; d.Net.Abortive = 0; return ch },
 		func(d *Case) bool { ch := d.Net.EOFData != 0; d.Net.EOFData = 0; return ch },
 		func(d *Case) bool { ch := d.Net.IOYield; d.Net.IOYield = false; return ch },
+		func(d *Case) bool { ch := d.Net.LateWrite; d.Net.LateWrite = false; return ch },
 	}
 	for _, f := range simplify {
 		d := best.Clone()
